@@ -15,18 +15,24 @@ func MaskedReduce(t *Dense, retType Dtype, fn maskedReduceFn, axis ...int) inter
 	// create object to be used for slicing
 	slices := make([]Slice, t.Dims())
 
-	// calculate shape of tensor to be returned
-	slices[ax] = makeRS(0, 0)
-	tt, _ := t.Slice(slices...)
-	ts := tt.(*Dense)
-	retVal := NewDense(retType, ts.shape) //retVal is array to be returned
+	// calculate shape of tensor to be returned: the shape of t without ax
+	retShape := make(Shape, 0, t.Dims()-1)
+	for d, s := range t.shape {
+		if d != ax {
+			retShape = append(retShape, s)
+		}
+	}
+	retVal := NewDense(retType, retShape) //retVal is array to be returned
 
-	it := NewIterator(retVal.Info())
-
-	// iterate through retVal
-	slices[ax] = makeRS(0, t.shape[ax])
-	for _, err := it.Next(); err == nil; _, err = it.Next() {
-		coord := it.Coord()
+	// iterate through the coordinates of retVal in row-major order
+	// (an iterator's Coord() is the coordinate AFTER the one Next() just returned)
+	coord := make([]int, len(retShape))
+	for i := 0; i < retVal.Size(); i++ {
+		rem := i
+		for d := len(retShape) - 1; d >= 0; d-- {
+			coord[d] = rem % retShape[d]
+			rem /= retShape[d]
+		}
 		k := 0
 		for d := range slices {
 			if d != ax {
@@ -36,8 +42,8 @@ func MaskedReduce(t *Dense, retType Dtype, fn maskedReduceFn, axis ...int) inter
 				slices[d] = nil
 			}
 		}
-		tt, _ = t.Slice(slices...)
-		ts = tt.(*Dense)
+		tt, _ := t.Slice(slices...)
+		ts := tt.(*Dense)
 		retVal.SetAt(fn(ts), coord...)
 
 	}
